@@ -4,6 +4,6 @@ CONSTANTS
   MaxCalls = 2
   Record = FALSE
   Sample = 0
-INVARIANTS AtMostOneHolder HolderOwnsRecord
+INVARIANTS AtMostOneHolder HolderOwnsRecord IndInvL
 PROPERTIES GrantSafe
 CHECK_DEADLOCK FALSE
